@@ -138,11 +138,14 @@ def _run(kind, data, fs, p, sel, ref_ind=None, view=False):
         out["tables"] = (np.array(res.Fn_poles), np.array(res.Xi_poles), np.array(res.Phi_poles))
     else:
         df = fs / p["nxseg"]
+        # band half-widths that are NOT whole numbers of lines: the requests sit on grid lines, so with whole numbers the
+        # band edges would coincide with lines exactly and the line at the edge would be in or out by one rounding (a tie the
+        # properties exclude; it showed as a false alarm under the time-unit transformation, seeds 213/221 of a sweep)
         if kind.startswith("FDD"):
-            setup.mpe("a", sel_freq=list(sel), DF=3 * df)
+            setup.mpe("a", sel_freq=list(sel), DF=3.4 * df)
             out["modes"] = (np.array(alg.result.Fn), None, np.array(alg.result.Phi))
         else:
-            setup.mpe("a", sel_freq=list(sel), DF1=3 * df, DF2=12 * df, npmax=8, sppk=2)
+            setup.mpe("a", sel_freq=list(sel), DF1=3.4 * df, DF2=12.4 * df, npmax=8, sppk=2)
             out["modes"] = (np.array(alg.result.Fn), np.array(alg.result.Xi), np.array(alg.result.Phi))
     return out
 
